@@ -354,7 +354,7 @@ class Builder:
         if kind == 'ldi':
             if d(st.integers(0, 7)) == 0:
                 # a quoted character that means something else outside quotes
-                return {'t': 'instr', 'mn': 'ldi', 'ops': [{'k': 'expr', 'e': ['num', ord(d(st.sampled_from(';\\#:.,'))), 'chr']}]}
+                return {'t': 'instr', 'mn': 'ldi', 'ops': [{'k': 'expr', 'e': ['num', ord(d(st.sampled_from(';\\#:.,\'"'))), 'chr']}]}
             return {'t': 'instr', 'mn': 'ldi', 'ops': [{'k': 'expr', 'e': self.value(d(st.integers(-128, 255)))}]}
         if kind == 'w12':
             return {'t': 'instr', 'mn': 'w12', 'ops': [{'k': 'expr', 'e': self.value(d(st.integers(-2048, 4095)))}]}
